@@ -78,6 +78,28 @@ Proof.
     rewrite nth_skipn_add. f_equal. lia.
 Qed.
 
+(* insert_nth *)
+Lemma insert_nth_length n v l : (n <= length l)%nat -> length (insert_nth n v l) = S (length l).
+Proof.
+  intro H. unfold insert_nth. rewrite app_length, firstn_length. cbn [length].
+  rewrite skipn_length. lia.
+Qed.
+
+Lemma nth_insert_nth n v l j d :
+  (n <= length l)%nat ->
+  nth j (insert_nth n v l) d =
+  if Nat.ltb j n then nth j l d else if Nat.eqb j n then v else nth (j - 1) l d.
+Proof.
+  intro H. unfold insert_nth.
+  destruct (Nat.ltb_spec j n) as [Hlt|Hge].
+  - rewrite app_nth1 by (rewrite firstn_length_le; lia). apply nth_firstn_lt. exact Hlt.
+  - rewrite app_nth2; rewrite firstn_length_le by lia; [|lia].
+    destruct (Nat.eqb_spec j n) as [->|Hne].
+    + replace (n - n)%nat with 0%nat by lia. reflexivity.
+    + destruct (j - n)%nat as [|m] eqn:E; [lia|]. cbn [nth].
+      rewrite nth_skipn_add. f_equal. lia.
+Qed.
+
 (* set_len *)
 Lemma set_len_length n v l : length (set_len n v l) = n.
 Proof. unfold set_len. rewrite app_length, firstn_length, repeat_length. lia. Qed.
